@@ -5,6 +5,10 @@ Instances are keyed by what the property REQUIRES (the protocol level, the (uniq
 method), so a construct that was deleted shows up as a violated instance, not as a missing one.
 
 GeometryFactory<TGeomImpl, TProjection> (every instantiation of drivers/geom.cpp: 3 back ends x 2 projections x 2 iterator kinds)
+ C1-ctor-forwards-settings   every constructor (default, settings pack, projection object, projection object + settings pack; the
+        driver instantiates each for every back end) initialises the back end with <projection member>.epsg() followed by
+        ALL its settings parameters, each exactly once and in order, moves the projection parameter into the projection
+        member, and uses every parameter exactly once; the projection member is declared before the back end.
  E1-count-equals-emits       fill_linestring / fill_linestring_unique / fill_polygon / fill_polygon_unique: on every CFG
         path the number of `*_add_location` calls equals the number of increments of the returned counter (bounded
         integer-delta dataflow, must be exactly {0} at every return); the counter starts at the constant 0 and is only
@@ -542,6 +546,82 @@ def _fill_one(fb, R, fn, F, S, name, unique, emit_name, q):
                 'is compared with it: a first element with exactly that location is dropped silently -- for the undefined location instead of '
                 'raising invalid_location (e.g. locations [undefined, A, B] yield the geometry A,B)'
                 % (fn.expr(dv['init']) if dv is not None and isinstance(dv.get('init'), int) else '?'))
+
+
+# ================================================================================================ constructors
+
+def ctor_rules(fb, R):
+    """C1: every constructor of GeometryFactory hands ALL its settings parameters to the back end (after the epsg of ITS projection
+    member), moves its projection parameter into the projection member, and uses every parameter exactly once; the projection
+    member is declared before the back end (it is read while the back end is initialised)."""
+    q = GF + '::(ctor)'
+    ctors = [f for f in fb.fns(q) if f.has_cfg]
+    if not ctors:
+        R.broken('no GeometryFactory constructor instantiated')
+        return
+    seen = set()
+    for fn in ctors:
+        F = Fac(fb, fn)
+        if not F.ok:
+            R.broken('%s: cannot identify back-end / projection members' % fn.full)
+            continue
+        rec = next((r for r in fb.records_named(GF) if r.full == fn.clsT), None)
+        if rec is not None:
+            fi = {f['name']: f['idx'] for f in rec.fields}
+            R.check(fi[F.proj] < fi[F.impl], 'C1-ctor-forwards-settings', GF + '#projection-member-declared-before-back-end',
+                    '%s:%d' % (rec.file, rec.line),
+                    'member %s (the back end) is initialised from %s.epsg() but is declared before it: the projection is read uninitialised'
+                    % (F.impl, F.proj))
+        pproj = [p for p in fn.params if p['tC'].replace('const ', '').rstrip('& ').strip() == F.proj_t]
+        settings = [p for p in fn.params if p not in pproj]
+        # copy / move constructors of the factory itself are not settings constructors
+        if len(fn.params) == 1 and fn.params[0]['tC'].replace('const ', '').rstrip('& ').strip().startswith(GF):
+            continue
+        shape = ('projection' if pproj else 'default-projection') + ('+settings' if settings else '')
+        key = '%s#%s/%s' % (q, shape, short(F.impl_t))
+        seen.add((shape, short(F.impl_t)))
+        inits = {n.get('name'): n for n in fn.all_nodes() if n.get('k') == 'init' and 'name' in n}
+        msg = None
+        ii = inits.get(F.impl)
+        c = pn(fn, ii['init']) if ii is not None and isinstance(ii.get('init'), int) else None
+        if c is None or c.get('k') != 'construct' or not c.get('q', '').startswith(F.impl_t + '::'):
+            msg = 'the back end member %s is not initialised by a constructor call' % F.impl
+        else:
+            # explicit arguments (defaulted ones are materialised by the compiler as CXXDefaultArgExpr)
+            args = [a for a in c.get('args', []) if not fn.nodes.get(a, {}).get('defarg')]
+            e = pn(fn, args[0]) if args else None
+            # epsg() is a static member of the projection: called through the member or through the projection type, it is the same function
+            if e is None or e.get('k') != 'call' or short(e.get('q', '')) != 'epsg' or not (
+                    recv_field(fn, e) == F.proj or e.get('q') == F.proj_t + '::epsg'):
+                msg = 'the first argument of the back end is not %s.epsg() of this factory\'s projection (found %s)' % (F.proj, fn.expr(args[0]) if args else 'nothing')
+            else:
+                got = [local_or_param(fn, a) for a in args[1:]]
+                want = [p['d'] for p in settings]
+                if got != want:
+                    names = lambda ds: [next((p['name'] or '?') + ':' + p['tC'] for p in fn.params if p['d'] == d) if d is not None else '<expr>' for d in ds]
+                    msg = ('the constructor takes the settings %s but passes %s on to the back end: settings given together with %s are silently '
+                           'ignored / reordered' % (names(want), names(got) or 'none', 'a projection object' if pproj else 'the default projection'))
+        if msg is None and pproj:
+            pi = inits.get(F.proj)
+            if pi is None or not isinstance(pi.get('init'), int) or local_or_param(fn, pn(fn, pi['init'])['args'][0] if pn(fn, pi['init']).get('k') == 'construct'
+                                                                                   and pn(fn, pi['init']).get('args') else pi['init']) != pproj[0]['d']:
+                msg = 'the projection parameter is not moved into the member %s' % F.proj
+        if msg is None:
+            # every parameter is used exactly once
+            for prm in fn.params:
+                uses = [n for n in fn.all_nodes() if n.get('k') == 'var' and n.get('d') == prm['d']]
+                if len(uses) != 1:
+                    msg = 'parameter %s (%s) is used %d times, required exactly once' % (prm['name'] or '?', prm['tC'], len(uses))
+        R.check(msg is None, 'C1-ctor-forwards-settings', key, fn.site, 'GeometryFactory constructor: %s' % msg,
+                detail='%s(%s)' % (F.impl, ', '.join(['epsg()'] + [p['tC'] for p in settings])))
+    # the property needs both settings constructors to exist for every back end
+    impls = {short(f.cls_targs[0]) for f in ctors if f.cls_targs}
+    for impl in sorted(impls):
+        for shape in ('default-projection+settings', 'projection+settings'):
+            if (shape, impl) not in seen:
+                R.bad('C1-ctor-forwards-settings', '%s#%s/%s' % (q, shape, impl), GF,
+                      'no constructor of GeometryFactory<%s, ...> takes %s together with back-end settings (not instantiated by drivers/geom.cpp)'
+                      % (impl, 'a projection object' if shape.startswith('projection') else 'the default projection'))
 
 
 # ================================================================================================ wrappers
@@ -2369,6 +2449,7 @@ def backend_rules(fb, R):
 
 # ================================================================================================ run
 def factory_rules(fb, R):
+    ctor_rules(fb, R)
     fill_rules(fb, R)
     wrapper_rules(fb, R)
     protocol_rules(fb, R)
@@ -2384,6 +2465,7 @@ def run(ctx):
         factory_rules(fb, R)
         backend_rules(fb, R)
     # instance floors, each confirmed by reading the tree (see the module docstring for what an instance is)
+    R.expect('C1-ctor-forwards-settings', 13)             # 3 back ends x {default, default+settings, projection, projection+settings} + member order
     R.expect('E1-count-equals-emits', 4)                  # the four fill_* functions
     R.expect('E2-emits-current-element', 5)               # + add_points
     R.expect('E3-skip-only-consecutive-duplicates', 13)   # 5 skip-guard + 5 one-emit-per-element + 3 compares-with-last-emitted
@@ -2415,7 +2497,7 @@ def _st_backend(fb, R):
 
 
 SELFTESTS = [(r, 'c17_geom.cpp', _st_factory) for r in (
-    'E1-count-equals-emits', 'E2-emits-current-element', 'E3-skip-only-consecutive-duplicates', 'E4-first-element-never-skipped',
+    'C1-ctor-forwards-settings', 'E1-count-equals-emits', 'E2-emits-current-element', 'E3-skip-only-consecutive-duplicates', 'E4-first-element-never-skipped',
     'W1-wrapper-forwards', 'T1-create-protocol',
     'D1-direction-and-uniqueness-dispatch', 'D2-reverse-iterators', 'G1-degenerate-threshold')] + [(r, 'c17_geom.cpp', _st_backend) for r in (
         'P1-checked-accessors', 'X1-axis-order', 'B1-wkb-counts-match-elements', 'B4-set_size-range-guard', 'B5-header-layout',
